@@ -150,6 +150,23 @@ def ops_table(ws):
         other = ds.isel(freq=slice(0, None, 2), dir=slice(0, None, 2)).copy(deep=True)
         return (lambda: ds.spec.interp_like(other)), [other]
 
+    def interp_coord_arrays(ds, rng):
+        # the new basis handed over as bare coordinate DataArrays WITHOUT attributes (the source coordinates have some)
+        f = xr.DataArray(np.asarray(ds.freq.values[::2], dtype=float), dims="freq", name="freq")
+        f = f.assign_coords(freq=f.values)
+        d = xr.DataArray(np.arange(0.0, 360.0, 45.0), dims="dir", name="dir")
+        d = d.assign_coords(dir=d.values)
+        which = rng.choice(["freq", "dir", "both"])
+        kw = dict(freq=f.freq) if which == "freq" else dict(dir=d.dir) if which == "dir" else dict(freq=f.freq, dir=d.dir)
+        return (lambda: ds.efth.spec.interp(**kw)), [f, d, kw]
+
+    def interp_like_bare(ds, rng):
+        other = xr.DataArray(np.ones((3, 4)), dims=("freq", "dir"), coords={"freq": np.asarray(ds.freq.values[:3], dtype=float) * 1.01,
+                                                                          "dir": np.array([0.0, 90.0, 180.0, 270.0])}, name="efth")
+        return (lambda: ds.spec.interp_like(other)), [other]
+
+    T["da.interp(coordinate arrays)"] = interp_coord_arrays
+    T["ds.interp_like(bare)"] = interp_like_bare
     T["da.interp"] = interp
     T["regrid_spec(lists)"] = interp_lists
     T["ds.interp_like"] = interp_like
